@@ -4,9 +4,8 @@ from __future__ import annotations
 import ast
 
 from ..core import Ctx
-from ..match import arg, call_name, calls, facts_at, local_defs, mentions, resolve, single_def, stores
+from ..match import arg, call_name, calls, fact_of, facts_at, local_defs, loop_facts, mentions, resolve, single_def, stores
 from ..model import AnalysisError, FuncInfo, ancestors, chain, const_value, enclosing_stmt, norm, parent, strip_cast, walk_no_nested
-from .c04 import _has_cond, _path_with
 
 LEVEL = "other"
 EXPLANATION = (
@@ -15,175 +14,589 @@ EXPLANATION = (
     "missing keys, unregistered hash, other subject key, older than 300 s, other name, other metadata, already "
     "attested) with tuple positions derived from add_known_hash; attestation creation and sending are dominated by a "
     "solicited, correctly substantiated disclosure and a truthy should_sign for that pseudonym and metadata; database "
-    "inserts of attestations/metadata are dominated by verify() under the very key recorded; token hand-out derives only "
-    "from token_chain[:permissions.get(peer, 0)], permissions written only for the chosen peer."
+    "inserts of attestations/metadata are dominated by verify() under the very key recorded, and never replace a stored "
+    "row (the stored rows are the memory of the 'already attested' refusal); token hand-out derives only "
+    "from token_chain[:permissions.get(peer, 0)], permissions written only for the chosen peer.  Expressions are "
+    "compared after substituting single-assignment locals by their definitions, guards are read from the CFG."
 )
 
 IC = "ipv8/attestation/identity/community.py"
 IM = "ipv8/attestation/identity/manager.py"
+ID = "ipv8/attestation/identity/database.py"
 
 
+# ------------------------------------------------------------------------------------ expression canonicalisation
+def _copy(n):
+    """Structural copy of an expression (fields and positions only: the engine's parent links are not followed)."""
+    if isinstance(n, ast.AST):
+        new = n.__class__()
+        for f in n._fields:
+            if hasattr(n, f):
+                setattr(new, f, _copy(getattr(n, f)))
+        for a in ("lineno", "col_offset", "end_lineno", "end_col_offset"):
+            if hasattr(n, a):
+                setattr(new, a, getattr(n, a))
+        return new
+    if isinstance(n, list):
+        return [_copy(x) for x in n]
+    return n
+
+
+def _comp_bound(n: ast.AST) -> set[str]:
+    return {x.id for g in n.generators for x in ast.walk(g.target) if isinstance(x, ast.Name)}
+
+
+def _stable_def(fi: FuncInfo, name: str, seen: frozenset = frozenset()) -> ast.AST | None:
+    """
+    The defining expression of local `name` if substituting it for the name is sound: the local is assigned exactly once
+    (plain / annotated / walrus assignment, no tuple position) and every local its definition reads is itself never
+    rebound (parameter without assignment, or single-assignment local).  Otherwise None.
+    """
+    if name in seen:
+        return None
+    d = single_def(fi, name)
+    if d is None or d[1] is not None:
+        return None
+    val = strip_cast(d[0])
+    bound: set[str] = set()
+    for n in ast.walk(val):
+        if isinstance(n, (ast.ListComp, ast.SetComp, ast.DictComp, ast.GeneratorExp)):
+            bound |= _comp_bound(n)
+        elif isinstance(n, ast.Lambda):
+            bound |= {a.arg for a in [*n.args.posonlyargs, *n.args.args, *n.args.kwonlyargs]}
+    for n in ast.walk(val):
+        if isinstance(n, ast.Name) and n.id not in bound and n.id != name:
+            defs = local_defs(fi, n.id)
+            if not defs:
+                continue                      # parameter that is never rebound / global / builtin
+            if n.id in fi.params() or len(defs) != 1:
+                return None                   # rebound parameter or multiply assigned local: value may differ at the use
+    return val
+
+
+class _Expander(ast.NodeTransformer):
+    def __init__(self, fi: FuncInfo, getsub: tuple[str, ...], seen: frozenset = frozenset()) -> None:
+        self.fi, self.getsub, self.seen = fi, getsub, seen
+        self.bound: set[str] = set()
+
+    def visit_Name(self, n: ast.Name):  # noqa: N802
+        if not isinstance(n.ctx, ast.Load) or n.id in self.bound:
+            return n
+        val = _stable_def(self.fi, n.id, self.seen)
+        if val is None:
+            return n
+        return _Expander(self.fi, self.getsub, self.seen | {n.id}).visit(_copy(val))
+
+    def _comp(self, n):
+        old = self.bound
+        self.bound = old | _comp_bound(n)
+        r = self.generic_visit(n)
+        self.bound = old
+        return r
+    visit_ListComp = visit_SetComp = visit_DictComp = visit_GeneratorExp = _comp
+
+    def visit_Lambda(self, n: ast.Lambda):  # noqa: N802
+        old = self.bound
+        self.bound = old | {a.arg for a in [*n.args.posonlyargs, *n.args.args, *n.args.kwonlyargs]}
+        r = self.generic_visit(n)
+        self.bound = old
+        return r
+
+    def visit_Call(self, n: ast.Call):  # noqa: N802
+        s = strip_cast(n)
+        if s is not n:
+            return self.visit(s)
+        n = self.generic_visit(n)
+        # table.get(k) / table.get(k, None) read the same entry as table[k] wherever the entry exists
+        if isinstance(n.func, ast.Attribute) and n.func.attr == "get" and not n.keywords and norm(n.func.value) in self.getsub \
+                and (len(n.args) == 1 or (len(n.args) == 2 and const_value(n.args[1]) is None)) and not isinstance(n.args[0], ast.Starred):
+            return ast.Subscript(value=n.func.value, slice=n.args[0], ctx=ast.Load())
+        return n
+
+
+def _expand(fi: FuncInfo, e: ast.AST | None, getsub: tuple[str, ...] = ()) -> ast.AST | None:
+    """Copy of e in which casts are dropped and every soundly substitutable local is replaced by its definition."""
+    if e is None:
+        return None
+    return _Expander(fi, getsub).visit(_copy(e))
+
+
+def _x(fi: FuncInfo, e: ast.AST | None, getsub: tuple[str, ...] = ()) -> str:
+    return norm(_expand(fi, e, getsub))
+
+
+def _c(text: str) -> str:
+    """Canonical text of an expression given as source."""
+    return norm(ast.parse(text, mode="eval").body)
+
+
+def _const_set(e: ast.AST):
+    if isinstance(e, (ast.List, ast.Tuple, ast.Set)):
+        vals = [const_value(x) for x in e.elts]
+        if all(isinstance(v, (str, bytes, int)) for v in vals):
+            return set(vals)
+    return None
+
+
+def _simple_callee_value(ctx: Ctx, fi: FuncInfo, call: ast.AST) -> ast.AST | None:
+    """
+    `self.helper(a, b)` where helper's body is a single `return <expr>` (after an optional docstring): <expr> with the
+    parameters replaced by the arguments.  This is what the call evaluates to; None when the callee has any other shape.
+    """
+    if not isinstance(call, ast.Call) or call.keywords or any(isinstance(a, ast.Starred) for a in call.args):
+        return None
+    if not (isinstance(call.func, ast.Attribute) and isinstance(call.func.value, ast.Name) and call.func.value.id == "self"):
+        return None
+    tg = ctx.repo.resolve_call(fi, call)
+    if len(tg) != 1 or tg[0].is_async:
+        return None
+    body = [s for s in tg[0].node.body if not (isinstance(s, ast.Expr) and isinstance(s.value, ast.Constant))]
+    if len(body) != 1 or not isinstance(body[0], ast.Return) or body[0].value is None:
+        return None
+    params = tg[0].params()
+    if not params or params[0] != "self" or len(params) - 1 != len(call.args):
+        return None
+    a = tg[0].node.args
+    if a.vararg or a.kwarg or a.kwonlyargs:
+        return None
+    mapping = dict(zip(params[1:], call.args))
+    val = _copy(body[0].value)
+    bound: set[str] = set()
+    for n in ast.walk(val):
+        if isinstance(n, (ast.ListComp, ast.SetComp, ast.DictComp, ast.GeneratorExp)):
+            bound |= _comp_bound(n)
+    if bound & set(mapping):
+        return None
+
+    class Sub(ast.NodeTransformer):
+        def visit_Name(self, n):  # noqa: N802
+            return _copy(mapping[n.id]) if n.id in mapping and isinstance(n.ctx, ast.Load) else n
+    return Sub().visit(val)
+
+
+def _edge_dominated(cfg, site_ast: ast.AST, pred) -> bool:
+    """Every path entry -> site uses an edge accepted by pred(u, v, label)."""
+    ns = [n for n in cfg.nodes_for(site_ast) if cfg.reachable(n)]
+    return bool(ns) and all(cfg.must_pass_edges(n, pred) for n in ns)
+
+
+def _reaches(cfg, starts, site_ast: ast.AST) -> bool:
+    r = cfg.reach(list(starts))
+    return any(n in r for n in cfg.nodes_for(site_ast))
+
+
+# ------------------------------------------------------------------------------------ registration table
 def known_hash_layout(ctx: Ctx) -> dict[str, int]:
     fi = ctx.repo.method("IdentityCommunity", "add_known_hash", IC)
-    sts = [s for s, t in stores(fi, "self.known_attestation_hashes[]")]
+    sts = [s for s, t in stores(fi, "self.known_attestation_hashes[]") if isinstance(s, ast.Assign) and len(s.targets) == 1]
     ctx.anchor(sts, "known_attestation_hashes[...] = (...) in add_known_hash")
-    tup = sts[0].value
+    tup = resolve(fi, sts[0].value)
     if not isinstance(tup, ast.Tuple):
         raise AnalysisError("anchor-lost: add_known_hash no longer stores a tuple literal")
     p = fi.params()
     layout = {}
     for i, e in enumerate(tup.elts):
-        if norm(e) == p[2]:
+        t = _x(fi, e)
+        if t == p[2]:
             layout["name"] = i
-        elif norm(e) == p[3]:
+        elif t == p[3]:
             layout["public_key"] = i
-        elif norm(e) == p[4]:
+        elif t == p[4]:
             layout["metadata"] = i
-        elif isinstance(e, ast.Call) and chain(e.func) in ("time", "time.time"):
-            layout["time"] = i
+        else:
+            e2 = _expand(fi, e)
+            if isinstance(e2, ast.Call) and chain(e2.func) in ("time", "time.time") and not e2.args:
+                layout["time"] = i
     if set(layout) != {"name", "public_key", "metadata", "time"}:
         raise AnalysisError(f"anchor-lost: add_known_hash tuple layout {layout}")
-    key_ok = norm(sts[0].targets[0].slice) == p[1]
+    # the key is (a padded form of) the attribute hash parameter and involves no other argument
+    key_names = {n.id for n in ast.walk(_expand(fi, sts[0].targets[0].slice)) if isinstance(n, ast.Name)}
+    key_ok = p[1] in key_names and not key_names & set(p[2:])
     ctx.check(key_ok, "should-sign", fi, sts[0], "registration keyed by the attribute hash", "registration is keyed by something other than the attribute hash")
     return layout
 
 
-def rule_should_sign(ctx: Ctx) -> None:
+def _is_time_call(e: ast.AST) -> bool:
+    return isinstance(e, ast.Call) and chain(e.func) in ("time", "time.time") and not e.args and not e.keywords
+
+
+def rule_should_sign(ctx: Ctx) -> None:  # noqa: C901, PLR0912, PLR0915
     repo = ctx.repo
     lay = known_hash_layout(ctx)
     fi = repo.method("IdentityCommunity", "should_sign", IC)
     cfg = ctx.cfg(fi)
     pseud, meta = fi.params()[1], fi.params()[2]
-    trues = [r for r in walk_no_nested(fi.node) if isinstance(r, ast.Return) and const_value(r.value) is True]
-    others = [r for r in walk_no_nested(fi.node) if isinstance(r, ast.Return) and const_value(r.value) not in (True, False)]
+    trues = [r for r in walk_no_nested(fi.node) if isinstance(r, ast.Return) and const_value(resolve(fi, r.value)) is True]
+    others = [r for r in walk_no_nested(fi.node) if isinstance(r, ast.Return) and const_value(resolve(fi, r.value)) not in (True, False)]
     ctx.check(len(trues) == 1 and not others, "should-sign", fi, fi.node, "should_sign has exactly one `return True` and otherwise returns False",
               "should_sign has several approving exits (or a non-constant verdict)")
     if len(trues) != 1:
         return
     site = trues[0]
     fs = facts_at(cfg, site)
-    K = "self.known_attestation_hashes[attribute_hash]"
+    TABLE = "self.known_attestation_hashes"
+    GS = (TABLE,)
+    # canonical (fully substituted) spellings; they mention only parameters and attributes of self
+    AH = _c(f"{pseud}.tree.elements[{meta}.token_pointer].content_hash")
+    TR = _c(f"json.loads({meta}.serialized_json_dict)")
+    K = _c(f"{TABLE}[{AH}]")
+    MYKEY = _c("self.my_peer.public_key.key_to_bin()")
+    SUBJ = _c(f"{pseud}.public_key.key_to_bin()")
+    stable_params = not local_defs(fi, pseud) and not local_defs(fi, meta)
+
+    def X(e) -> str:  # noqa: N802
+        return _x(fi, e, GS)
 
     def reg(field: str) -> str:
-        return f"{K}[{lay[field]}]"
-    ah = single_def(fi, "attribute_hash")
-    ok_ah = ah is not None and norm(ah[0]) == f"{pseud}.tree.elements[{meta}.token_pointer].content_hash"
-    tr = single_def(fi, "transaction")
-    ok_tr = tr is not None and norm(tr[0]) == f"json.loads({meta}.serialized_json_dict)"
-    ctx.check(ok_ah and ok_tr, "should-sign", fi, fi.node, "attribute hash = content hash of the token the metadata points to; transaction = the metadata's json",
+        return _c(f"{K}[{lay[field]}]")
+
+    def local_is(name: str, *canon: str) -> bool:
+        # a local of the reviewed name, if it exists, must be what the reviewed code says it is
+        if not local_defs(fi, name) and name not in fi.params():
+            return True
+        return X(ast.Name(id=name, ctx=ast.Load())) in canon
+    key_forms = (_c(f"set({TR}.keys())"), _c(f"{TR}.keys()"), TR, _c(f"set({TR})"), _c(f"frozenset({TR}.keys())"), _c(f"list({TR}.keys())"))
+    ctx.check(stable_params and local_is("attribute_hash", AH) and local_is("transaction", TR), "should-sign", fi, fi.node,
+              "attribute hash = content hash of the token the metadata points to; transaction = the metadata's json",
               "should_sign judges a hash / json other than the disclosed metadata's")
+
+    def registered(f) -> bool:
+        if f.op == "in" and f.pos and X(f.left) == AH and X(f.right) == TABLE:
+            return True
+        # entry = table.get(hash) ... `if not entry` / `if entry is None` (entries are non-empty tuples)
+        raw = _x(fi, f.left)
+        if raw in (_c(f"{TABLE}.get({AH})"), _c(f"{TABLE}.get({AH}, None)")):
+            return (f.op == "truthy" and f.pos) or (f.op == "is" and not f.pos and const_value(f.right) is None)
+        return False
+
+    def young(f) -> bool:
+        if f.op != "lt" or f.pos:
+            return False
+        l, r = _expand(fi, f.left, GS), _expand(fi, f.right, GS)
+        # not (reg_time + 300 < time())
+        if isinstance(l, ast.BinOp) and isinstance(l.op, ast.Add) and _is_time_call(r):
+            return sorted([norm(l.left), norm(l.right)]) == sorted([reg("time"), "300"])
+        # not (300 < time() - reg_time)
+        if const_value(l) == 300 and isinstance(r, ast.BinOp) and isinstance(r.op, ast.Sub):
+            return _is_time_call(r.left) and norm(r.right) == reg("time")
+        return False
     reasons = {
-        "token pointer known": any(f.op == "in" and f.pos and norm(f.left) == f"{meta}.token_pointer" and norm(f.right) == f"{pseud}.tree.elements" for f in fs),
-        "hash registered": any(f.op == "in" and f.pos and norm(f.left) == "attribute_hash" and norm(f.right) == "self.known_attestation_hashes" for f in fs),
-        "subject key == registered key": any(f.op == "eq" and f.pos and {norm(f.left), norm(f.right)} == {f"{pseud}.public_key.key_to_bin()", reg("public_key")} for f in fs),
-        "registration younger than 300 s": any(f.op == "lt" and not f.pos and norm(f.left) == f"{reg('time')} + 300" and norm(f.right) in ("time()", "time.time()") for f in fs),
-        "name == registered name": any(f.op == "eq" and f.pos and {norm(f.left), norm(f.right)} == {"transaction['name']", reg("name")} for f in fs),
+        "token pointer known": any(f.op == "in" and f.pos and X(f.left) == _c(f"{meta}.token_pointer") and X(f.right) == _c(f"{pseud}.tree.elements") for f in fs),
+        "hash registered": any(registered(f) for f in fs),
+        "subject key == registered key": any(f.op == "eq" and f.pos and {X(f.left), X(f.right)} == {SUBJ, reg("public_key")} for f in fs),
+        "registration younger than 300 s": any(young(f) for f in fs),
+        "name == registered name": any(f.op == "eq" and f.pos and {X(f.left), X(f.right)} == {_c(f"{TR}['name']"), reg("name")} for f in fs),
     }
+
+    def has_key(f, k: str) -> bool:
+        if f.op == "in" and f.pos and const_value(f.left) == k and X(f.right) in key_forms:
+            return True
+        # {"name", ...} <= keys  /  keys >= {...}   (fact_of spells both as: not (keys < literal))
+        if f.op == "lt" and not f.pos and isinstance(f.atom, ast.Compare) and isinstance(f.atom.ops[0], (ast.LtE, ast.GtE)):
+            rr = _expand(fi, f.right)
+            lit = _const_set(rr) if isinstance(rr, ast.Set) else None
+            return lit is not None and k in lit and X(f.left) in key_forms[:2]
+        if f.op == "truthy" and f.pos and isinstance(f.left, ast.Call) and isinstance(f.left.func, ast.Attribute) and len(f.left.args) == 1 and not f.left.keywords:
+            recv, a = f.left.func.value, f.left.args[0]
+            if f.left.func.attr == "issubset" and isinstance(recv, ast.Set):
+                return k in (_const_set(recv) or ()) and X(a) in key_forms
+            if f.left.func.attr == "issuperset" and X(recv) in (key_forms[0], key_forms[3], key_forms[4]):
+                return k in (_const_set(a) or ())
+        return False
     for k in ("name", "date", "schema"):
-        reasons[f"required key {k}"] = any(f.op == "in" and f.pos and const_value(f.left) == k and norm(f.right) == "requested_keys" for f in fs)
-    rk = single_def(fi, "requested_keys")
-    reasons["requested_keys = keys of the transaction"] = rk is not None and norm(rk[0]) == "set(transaction.keys())"
+        reasons[f"required key {k}"] = any(has_key(f, k) for f in fs)
+    reasons["requested_keys = keys of the transaction"] = local_is("requested_keys", *key_forms)
     for what, ok in reasons.items():
         ctx.check(ok, "should-sign", fi, site, f"`return True` dominated by: {what}",
                   f"should_sign can approve although the condition `{what}` does not hold", [str(f) for f in fs])
-    # registered metadata present => extra fields equal (conjunction: no path with both refusal atoms true reaches return True)
-    A = f"{reg('metadata')} is not None"
-    extra = [n for n in cfg.nodes if n.kind == "cond" and isinstance(n.ast, ast.Compare) and isinstance(n.ast.ops[0], ast.NotEq)
-             and norm(n.ast.comparators[0]) == reg("metadata") and isinstance(n.ast.left, ast.DictComp)]
-    ok = _has_cond(cfg, A) and len(extra) == 1
-    if ok:
-        dc = extra[0].ast.left
-        filt = " ".join(norm(i) for g in dc.generators for i in g.ifs)
-        ok = norm(dc.generators[0].iter) == "transaction.items()" and "not in ['name', 'date', 'schema']" in filt
-        bad = _path_with(cfg, site, [(A, True), (norm(extra[0].ast), True)])
-        ok = ok and not bad
+    # registered metadata present => extra fields equal: every path to `return True` takes the "no metadata registered" edge
+    # or the "extra fields == registered metadata" edge
+    absent_edges: dict = {}
+    equal_edges: dict = {}
+    for n in cfg.nodes:
+        if n.kind != "cond":
+            continue
+        f = fact_of(n.ast, True)
+        if f.op == "is" and const_value(f.right) is None and X(f.left) == reg("metadata"):
+            absent_edges[n] = f.pos            # label under which `... is None` holds
+        elif f.op == "eq":
+            for a, b in ((f.left, f.right), (f.right, f.left)):
+                if X(b) == reg("metadata") and _extra_fields_of(fi, _expand(fi, a, GS), TR):
+                    equal_edges[n] = f.pos     # label under which the two are equal
+    ok = bool(absent_edges) and bool(equal_edges) and _edge_dominated(
+        cfg, site, lambda u, v, lab: (u in absent_edges and lab is absent_edges[u]) or (u in equal_edges and lab is equal_edges[u]))
     ctx.check(ok, "should-sign", fi, site, "`return True` unreachable when registered metadata exists and differs from the extra fields",
               "should_sign approves metadata that differs from the metadata fixed at registration")
     # already attested by us
-    loops = [l for l in walk_no_nested(fi.node) if isinstance(l, ast.For) and "get_attestations_over" in norm(l.iter)]
-    ok = False
-    ga = repo.method("IdentityDatabase", "get_authority", "ipv8/attestation/identity/database.py")
+    ga = repo.method("IdentityDatabase", "get_authority", ID)
     ga_ret = norm(ga.node.returns) if ga.node.returns is not None else ""
     single_key = ga_ret in ("bytes", "'bytes'")
-    mykey = "self.my_peer.public_key.key_to_bin()"
+    over = _c(f"{pseud}.database.get_attestations_over({meta})")
+
+    def authority_eq(e: ast.AST, att: str) -> bool:
+        return isinstance(e, ast.Compare) and len(e.ops) == 1 and isinstance(e.ops[0], ast.Eq) and \
+            {norm(e.left), norm(e.comparators[0])} == {_c(f"{pseud}.database.get_authority({att})"), MYKEY}
+
+    def any_over_bytes(e: ast.AST) -> bool:
+        return isinstance(e, ast.Call) and chain(e.func) == "any" and MYKEY in norm(e) and "get_authority" in norm(e) and \
+            any(isinstance(g, (ast.GeneratorExp, ast.ListComp)) and any("get_authority" in norm(c.iter) for c in g.generators) for g in ast.walk(e))
+    ok = False
+    loops = [l for l in walk_no_nested(fi.node) if isinstance(l, ast.For) and X(l.iter) == over and isinstance(l.target, ast.Name)]
     for l in loops:
-        att = norm(l.target)
-        for r in [r for r in ast.walk(l) if isinstance(r, ast.Return) and const_value(r.value) is False]:
+        att = l.target.id
+        refused = False
+        for r in [r for r in ast.walk(l) if isinstance(r, ast.Return) and const_value(resolve(fi, r.value)) is False]:
             for f in facts_at(cfg, r):
-                if f.op == "eq" and f.pos and {norm(f.left), norm(f.right)} == {f"{pseud}.database.get_authority({att})", mykey}:
-                    ok = single_key
-                if f.op == "truthy" and f.pos and isinstance(f.left, ast.Call) and chain(f.left.func) == "any" and mykey in norm(f.left) and "get_authority" in norm(f.left):
+                e = _expand(fi, f.atom, GS)
+                if f.op == "eq" and f.pos and {X(f.left), X(f.right)} == {_c(f"{pseud}.database.get_authority({att})"), MYKEY}:
+                    # once the comparison succeeds the approving exit is out of reach
+                    cn = [n for n in cfg.nodes_for(f.atom) if n.kind == "cond"]
+                    lab = fact_of(f.atom, True).pos      # label of the edge on which the two keys are equal
+                    if cn and not _reaches(cfg, [v for n in cn for v, la in n.succ if la is lab], site):
+                        refused = single_key
+                if f.op == "truthy" and f.pos and any_over_bytes(e):
                     if single_key:
                         ctx.check(False, "should-sign", fi, f.left, "already-attested test compares whole keys",
                                   f"the 'already attested' refusal iterates over get_authority(), which returns ONE key as `{ga_ret}`: each element is an int and never equals "
                                   "our key (bytes), so the refusal is dead code and a replayed disclosure is attested again")
                     else:
-                        ok = True
-        ok = ok and norm(arg(l.iter, 0)) == meta and site.lineno > l.end_lineno
+                        refused = True
+        # the approving exit lies behind the exhausted loop (every attestation over this metadata has been looked at)
+        after = any(a is l and pol is False for a, pol in loop_facts(cfg, site))
+        ok = ok or (refused and after)
+    if not loops:
+        # comprehension spelling: `if any(get_authority(a) == our key for a in get_attestations_over(metadata)): return False`
+        for f in fs:
+            e = _expand(fi, f.left, GS)
+            if f.op == "truthy" and not f.pos and isinstance(e, ast.Call) and chain(e.func) == "any" and len(e.args) == 1 \
+                    and isinstance(e.args[0], (ast.GeneratorExp, ast.ListComp)) and len(e.args[0].generators) == 1:
+                g = e.args[0].generators[0]
+                if norm(g.iter) == over and isinstance(g.target, ast.Name) and not g.ifs and authority_eq(e.args[0].elt, g.target.id):
+                    ok = single_key
     ctx.check(ok, "should-sign", fi, site, "refuses when one of the attestations over this metadata is already by us", "should_sign attests the same metadata twice")
     # registrations are written only by add_known_hash
     for m, f2, a in repo.attribute_uses("known_attestation_hashes"):
         p = parent(a)
         w = isinstance(a.ctx, ast.Store) or (isinstance(p, ast.Subscript) and isinstance(p.ctx, (ast.Store, ast.Del))) or \
-            (isinstance(p, ast.Attribute) and p.attr in ("update", "setdefault", "pop", "clear") and isinstance(parent(p), ast.Call))
+            (isinstance(p, ast.Attribute) and p.attr in ("update", "setdefault", "pop", "clear", "popitem", "__setitem__", "__delitem__") and isinstance(parent(p), ast.Call))
         if w:
             ctx.check(f2 is not None and f2.qualname in ("IdentityCommunity.add_known_hash", "IdentityCommunity.__init__"), "should-sign", f2 or m.relpath, enclosing_stmt(a),
                       "registrations written only by add_known_hash", "the consent table is written outside add_known_hash")
 
 
-def rule_attest(ctx: Ctx) -> None:
+def _extra_fields_of(fi: FuncInfo, dc: ast.AST | None, tr: str) -> bool:
+    """dc is `{k: v for k, v in <transaction>.items() if k not in <name, date, schema>}` (any literal kind for the three names)."""
+    if not isinstance(dc, ast.DictComp) or len(dc.generators) != 1:
+        return False
+    g = dc.generators[0]
+    if g.is_async or not (isinstance(g.target, ast.Tuple) and len(g.target.elts) == 2 and all(isinstance(t, ast.Name) for t in g.target.elts)):
+        return False
+    k, v = g.target.elts[0].id, g.target.elts[1].id
+    if not (isinstance(dc.key, ast.Name) and dc.key.id == k and isinstance(dc.value, ast.Name) and dc.value.id == v and k != v):
+        return False
+    if norm(g.iter) != _c(f"{tr}.items()") or len(g.ifs) != 1:
+        return False
+    t = g.ifs[0]
+    neg = False
+    while isinstance(t, ast.UnaryOp) and isinstance(t.op, ast.Not):
+        t, neg = t.operand, not neg
+    if not (isinstance(t, ast.Compare) and len(t.ops) == 1 and isinstance(t.left, ast.Name) and t.left.id == k):
+        return False
+    excluded = (isinstance(t.ops[0], ast.NotIn) and not neg) or (isinstance(t.ops[0], ast.In) and neg)
+    return excluded and _const_set(t.comparators[0]) == {"name", "date", "schema"}
+
+
+def rule_attested_memory(ctx: Ctx) -> None:
+    """
+    The 'already attested' refusal of should_sign asks the database for attestations over the STORED metadata of the
+    token (get_credentials -> get_attestations_over(metadata)).  That memory is only as good as the rows are permanent:
+    Metadata is keyed (public_key, token_pointer) and Attestations (public_key, metadata_pointer), so an insert that
+    replaces an existing row lets a re-issued metadata (other hash, no attestation over it yet) take the place of the
+    attested one and the same registered attribute is signed again within the five minutes.  First write must win.
+    """
+    repo = ctx.repo
+    for meth, table in (("insert_metadata", "Metadata"), ("insert_attestation", "Attestations")):
+        fi = repo.method("IdentityDatabase", meth, ID)
+        texts = []
+        doc = fi.node.body[0].value if isinstance(fi.node.body[0], ast.Expr) and isinstance(fi.node.body[0].value, ast.Constant) else None
+        cands = [n for n in ast.walk(fi.node) if isinstance(n, ast.Constant) and isinstance(n.value, str) and n is not doc]
+        cands += [a for c in calls(fi, nested=True) for a in [*c.args, *[k.value for k in c.keywords]] if isinstance(a, (ast.Name, ast.Attribute, ast.BinOp))]
+        for n in cands:
+            if isinstance(n, ast.Constant):
+                v = n.value
+            else:
+                try:
+                    v = repo.resolve_const(fi.module, resolve(fi, n), fi.cls)
+                except Exception:  # noqa: BLE001
+                    v = None
+            if isinstance(v, str) and f"INTO {table.upper()}" in " ".join(v.upper().split()):
+                texts.append((n, " ".join(v.upper().split())))
+        if not texts:
+            raise AnalysisError(f"anchor-lost: no SQL statement writing table {table} found in IdentityDatabase.{meth}")
+        for n, sql in texts:
+            keeps = sql.startswith("INSERT OR IGNORE INTO") or ("ON CONFLICT" in sql and "DO NOTHING" in sql and "DO UPDATE" not in sql)
+            replaces = sql.startswith(("REPLACE", "INSERT OR REPLACE")) or "DO UPDATE" in sql
+            if not keeps and not replaces:
+                raise AnalysisError(f"undecided: conflict behaviour of `{sql[:60]}` in IdentityDatabase.{meth}")
+            ctx.check(keeps, "should-sign", fi, enclosing_stmt(n) if not isinstance(n, ast.stmt) else n,
+                      f"{meth}: a stored {table} row is never replaced (first write wins), so the 'already attested' memory stays attached to the attested metadata",
+                      f"IdentityDatabase.{meth} replaces an existing {table} row: re-issued metadata for an already attested token displaces the attested one, "
+                      "should_sign's 'already attested' lookup finds nothing for it and the same registered attribute is attested again")
+
+
+# ------------------------------------------------------------------------------------ attesting
+def _solicited_expr(e: ast.AST | None, lay: dict[str, int], peerkey: str) -> bool:
+    """e says: some registration's subject key equals the sender's key."""
+    def reg_key(x: ast.AST, var: str) -> bool:
+        return isinstance(x, ast.Subscript) and isinstance(x.value, ast.Name) and x.value.id == var and const_value(x.slice) == lay["public_key"]
+
+    def over_table(g: ast.comprehension) -> str | None:
+        if g.is_async or g.ifs or not isinstance(g.target, ast.Name) or norm(g.iter) != "self.known_attestation_hashes.values()":
+            return None
+        return g.target.id
+    if isinstance(e, ast.Call) and chain(e.func) == "any" and len(e.args) == 1 and not e.keywords \
+            and isinstance(e.args[0], (ast.GeneratorExp, ast.ListComp, ast.SetComp)) and len(e.args[0].generators) == 1:
+        var = over_table(e.args[0].generators[0])
+        c = e.args[0].elt
+        if var and isinstance(c, ast.Compare) and len(c.ops) == 1 and isinstance(c.ops[0], ast.Eq):
+            a, b = c.left, c.comparators[0]
+            return (reg_key(a, var) and norm(b) == peerkey) or (reg_key(b, var) and norm(a) == peerkey)
+    if isinstance(e, ast.Compare) and len(e.ops) == 1 and isinstance(e.ops[0], ast.In) and norm(e.left) == peerkey:
+        s = e.comparators[0]
+        if isinstance(s, (ast.GeneratorExp, ast.ListComp, ast.SetComp)) and len(s.generators) == 1:
+            var = over_table(s.generators[0])
+            return bool(var) and reg_key(s.elt, var)
+    return False
+
+
+def _tuple_elem(fi: FuncInfo, e: ast.AST | None):
+    """(producer expression, position) when e is one element of an unpacked / indexed call result."""
+    e = strip_cast(e) if e is not None else None
+    if isinstance(e, ast.Name):
+        d = single_def(fi, e.id)
+        if d is not None and d[1] is not None:
+            return resolve(fi, d[0]), d[1]
+        if d is not None:
+            return _tuple_elem(fi, d[0])
+    if isinstance(e, ast.Subscript) and isinstance(const_value(e.slice), int):
+        return resolve(fi, e.value), const_value(e.slice)
+    return None, None
+
+
+def rule_attest(ctx: Ctx) -> None:  # noqa: C901, PLR0912
     repo = ctx.repo
     lay = known_hash_layout(ctx)
     fi = repo.method("IdentityCommunity", "_received_disclosure_for_attest", IC)
     cfg = ctx.cfg(fi)
     peer, disc = fi.params()[1], fi.params()[2]
-    sites = [c for c in calls(fi) if call_name(c) == "create_attestation"] + [c for c in calls(fi, "self.ez_send") if "AttestPayload" in norm(c)]
+    peerkey = _c(f"{peer}.public_key.key_to_bin()")
+    stable = not local_defs(fi, peer) and not local_defs(fi, disc)
+    creates = [c for c in calls(fi) if call_name(c) == "create_attestation"]
+    sites = creates + [c for c in calls(fi, "self.ez_send") if mentions(c, "AttestPayload")]
     ctx.floor("attest-only-if-consented", len(sites), 2)
     sub = [c for c in calls(fi, "self.identity_manager.substantiate")]
-    ok_sub = len(sub) == 1 and norm(arg(sub[0], 0)) == f"{peer}.public_key" and any(isinstance(a, ast.Starred) and norm(a.value) == disc for a in sub[0].args)
+    ok_sub = stable and len(sub) == 1 and _x(fi, arg(sub[0], 0)) == f"{peer}.public_key" and len(sub[0].args) == 2 \
+        and isinstance(sub[0].args[1], ast.Starred) and _x(fi, sub[0].args[1].value) == disc and not sub[0].keywords
     ctx.check(ok_sub, "attest-only-if-consented", fi, fi.node, "disclosure substantiated under the authenticated sender's key", "the disclosure is validated under a key other than the sender's")
     for s in sites:
         fs = facts_at(cfg, s)
-        sol = False
-        for f in fs:
-            if f.op == "truthy" and f.pos and isinstance(f.left, ast.Name):
-                d = single_def(fi, f.left.id)
-                if d is not None and isinstance(strip_cast(d[0]), ast.Call) and chain(strip_cast(d[0]).func) == "any" \
-                        and f"[{lay['public_key']}] == {peer}.public_key.key_to_bin()" in norm(d[0]) and "self.known_attestation_hashes.values()" in norm(d[0]):
-                    sol = True
-        cor = False
-        pvar = None
-        for f in fs:
-            if f.op == "truthy" and f.pos and isinstance(f.left, ast.Name):
-                d = single_def(fi, f.left.id)
-                if d is not None and d[1] == 0 and sub and strip_cast(d[0]) is sub[0]:
-                    cor = True
-        for st in walk_no_nested(fi.node):
-            if isinstance(st, ast.Assign) and isinstance(st.targets[0], ast.Tuple) and strip_cast(st.value) in sub:
-                pvar = norm(st.targets[0].elts[1])
+        sol = cor = False
         ss = None
         for f in fs:
-            if f.op == "truthy" and f.pos and isinstance(f.left, ast.Call) and chain(f.left.func) == "self.should_sign":
-                ss = f.left
-        ss_ok = ss is not None and norm(arg(ss, 0)) == pvar and norm(arg(ss, 1)) == "credential.metadata"
+            e = _expand(fi, f.atom)
+            via = _simple_callee_value(ctx, fi, e)
+            if f.pos and (_solicited_expr(e, lay, peerkey) or (via is not None and _solicited_expr(via, lay, peerkey))):
+                sol = True
+            if f.op == "truthy" and f.pos:
+                prod, idx = _tuple_elem(fi, f.left)
+                if sub and prod is sub[0] and idx == 0:
+                    cor = True
+                r = resolve(fi, f.left)
+                if isinstance(r, ast.Call) and chain(r.func) == "self.should_sign":
+                    ss = r
+        ss_ok = False
+        if ss is not None and len(ss.args) == 2 and not ss.keywords:
+            prod, idx = _tuple_elem(fi, ss.args[0])
+            ss_ok = bool(sub) and prod is sub[0] and idx == 1 and _x(fi, ss.args[1]) == "credential.metadata"
         ctx.check(sol and cor and ss_ok, "attest-only-if-consented", fi, s,
                   "attesting dominated by: solicited sender, correct substantiation, should_sign(pseudonym, credential.metadata)",
                   f"an attestation can be created/sent without the owner's consent checks (solicited={sol} correct={cor} should_sign={ss_ok})", [str(f) for f in fs])
-    for c in [c for c in calls(fi) if call_name(c) == "create_attestation"]:
-        ok = norm(arg(c, 0)) == "credential.metadata" and "self.my_peer.key" in norm(arg(c, 1))
+    for c in creates:
+        ok = _x(fi, arg(c, 0)) == "credential.metadata" and _x(fi, arg(c, 1)) == "self.my_peer.key"
         ctx.check(ok, "attest-only-if-consented", fi, c, "attestation is over the approved metadata, signed with our key", "the attestation is over other metadata than the approved one")
-    sb = repo.method("IdentityManager", "substantiate", IM)
+    _substantiate(ctx)
+
+
+def _substantiate(ctx: Ctx) -> None:  # noqa: C901
+    """
+    The flag returned by substantiate is a conjunction: it starts as the verdict of tree.unserialize_public(tokens) of the
+    given key's pseudonym and can only be lowered (&=) afterwards, and every add_attestation verdict is and-ed into it.
+    Any other way of computing it (an `or` alternative, a reset to True, |=) lets a disclosure whose chain or attestations
+    did not verify count as correct, and the caller signs on the strength of it.
+    """
+    sb = ctx.repo.method("IdentityManager", "substantiate", IM)
+    cfg = ctx.cfg(sb)
+    p = sb.params()
+    pseudo = _c(f"self.get_pseudonym({p[1]})")
     rets = [r for r in walk_no_nested(sb.node) if isinstance(r, ast.Return)]
-    ok = len(rets) == 1 and norm(rets[0].value) == "(correct, pseudonym)"
-    defs = local_defs(sb, "correct")
-    ok = ok and any(v is not None and "unserialize_public" in norm(v) for _, v, _ in defs) and \
-        any(isinstance(s, ast.AugAssign) and isinstance(s.op, ast.BitAnd) and "add_attestation" in norm(s.value) for s, v, _ in defs)
-    ok = ok and not any(isinstance(s, (ast.Assign,)) and const_value(s.value) is True and s is not defs[0][0] for s, v, _ in defs)
-    ctx.check(ok, "attest-only-if-consented", sb, sb.node, "substantiate ANDs tree.unserialize_public and every add_attestation result",
-              "substantiate reports a disclosure as correct although a token or attestation failed verification")
-    d = single_def(sb, "pseudonym")
-    ctx.check(d is not None and norm(d[0]) == f"self.get_pseudonym({sb.params()[1]})", "attest-only-if-consented", sb, sb.node,
+    rv = resolve(sb, rets[0].value) if len(rets) == 1 else None
+    ok = isinstance(rv, ast.Tuple) and len(rv.elts) == 2 and isinstance(rv.elts[0], ast.Name) and not local_defs(sb, p[1]) and not local_defs(sb, p[3])
+    why = "substantiate no longer returns (flag, pseudonym) from a single exit"
+    flag = rv.elts[0].id if ok else None
+    if ok:
+        def and_update(s, v) -> ast.AST | None:
+            """the operand and-ed into the flag by this definition, or None"""
+            if isinstance(s, ast.AugAssign) and isinstance(s.op, ast.BitAnd):
+                return s.value
+            if isinstance(v, ast.BinOp) and isinstance(v.op, ast.BitAnd):
+                if isinstance(v.left, ast.Name) and v.left.id == flag:
+                    return v.right
+                if isinstance(v.right, ast.Name) and v.right.id == flag:
+                    return v.left
+            if isinstance(v, ast.BoolOp) and isinstance(v.op, ast.And) and len(v.values) == 2:
+                if isinstance(v.values[0], ast.Name) and v.values[0].id == flag:
+                    return v.values[1]
+                if isinstance(v.values[1], ast.Name) and v.values[1].id == flag:
+                    return v.values[0]
+            return None
+        defs = local_defs(sb, flag)
+        inits = [(s, v) for s, v, i in defs if and_update(s, v) is None]
+        anded = [and_update(s, v) for s, v, i in defs if and_update(s, v) is not None]
+
+        def is_chain_verdict(e: ast.AST | None) -> bool:
+            e = _expand(sb, e)
+            if isinstance(e, ast.BoolOp) and isinstance(e.op, ast.And):
+                return any(is_chain_verdict(v) for v in e.values)
+            return isinstance(e, ast.Call) and norm(e.func) == _c(f"{pseudo}.tree.unserialize_public") and len(e.args) == 1 \
+                and not e.keywords and norm(e.args[0]) == p[3]
+        ok = len(inits) == 1 and inits[0][1] is not None and is_chain_verdict(inits[0][1]) and not isinstance(inits[0][0], (ast.For, ast.With))
+        why = "the flag of substantiate is not `tree.unserialize_public(tokens)` lowered only by `&=`"
+        if ok:
+            # the initial verdict is taken on every path to the return
+            init_nodes = cfg.nodes_for(inits[0][0])
+            ok = bool(init_nodes) and all(cfg.must_complete(n, init_nodes) for r in rets for n in cfg.nodes_for(r))
+        if ok:
+            adds = [c for c in calls(sb) if call_name(c) == "add_attestation"]
+            folded = [resolve(sb, a) for a in anded]
+            ok = bool(adds) and all(any(c is f for f in folded) for c in adds) and all(_x(sb, c.func.value) == pseudo for c in adds if isinstance(c.func, ast.Attribute))
+            why = "an add_attestation verdict is not and-ed into the flag of substantiate"
+        ok = ok and _x(sb, rv.elts[1]) == pseudo
+    ctx.check(bool(ok), "attest-only-if-consented", sb, sb.node, "substantiate ANDs tree.unserialize_public and every add_attestation result",
+              f"substantiate reports a disclosure as correct although a token or attestation failed verification ({why})")
+    ctx.check(flag is not None and _x(sb, rv.elts[1]) == pseudo, "attest-only-if-consented", sb, sb.node,
               "the pseudonym is the one of the given key", "substantiate loads the disclosure into another key's pseudonym")
+
+
+# ------------------------------------------------------------------------------------ storing
+def _verify_fact(fi: FuncInfo, fs, obj: str, key: str) -> bool:
+    """A dominating fact `obj.verify(key)` is truthy (possibly through a local holding the verdict)."""
+    for f in fs:
+        if f.op == "truthy" and f.pos:
+            e = _expand(fi, f.left)
+            if isinstance(e, ast.Call) and isinstance(e.func, ast.Attribute) and e.func.attr == "verify" and norm(e.func.value) == obj \
+                    and len(e.args) == 1 and not e.keywords and norm(e.args[0]) == key:
+                return True
+    return False
 
 
 def rule_store(ctx: Ctx) -> None:
@@ -200,14 +613,13 @@ def rule_store(ctx: Ctx) -> None:
         cfg = ctx.cfg(fi)
         fs = facts_at(cfg, c)
         if call_name(c) == "insert_attestation":
-            att, auth = norm(arg(c, 2)), norm(arg(c, 1))
-            ok = any(f.op == "truthy" and f.pos and isinstance(f.left, ast.Call) and norm(f.left.func) == f"{att}.verify" and norm(arg(f.left, 0)) == auth for f in fs)
-            ok = ok and norm(arg(c, 0)) == "self.public_key"
+            att, auth = _x(fi, arg(c, 2)), _x(fi, arg(c, 1))
+            ok = _verify_fact(fi, fs, att, auth) and _x(fi, arg(c, 0)) == "self.public_key"
             ctx.check(ok, "store-only-valid", fi, c, "attestation stored only if it verifies under the key recorded as its authority",
                       "an attestation is stored without being validly signed by the recorded authority", [str(f) for f in fs])
         else:
-            md = norm(arg(c, 1))
-            ok = any(f.op == "truthy" and f.pos and isinstance(f.left, ast.Call) and norm(f.left.func) == f"{md}.verify" and norm(arg(f.left, 0)) == "self.public_key" for f in fs)
+            md = _x(fi, arg(c, 1))
+            ok = _verify_fact(fi, fs, md, "self.public_key") and _x(fi, arg(c, 0)) == "self.public_key"
             ctx.check(ok, "store-only-valid", fi, c, "metadata stored only if signed by the pseudonym's key", "metadata is stored without a valid owner signature", [str(f) for f in fs])
     ctx.floor("store-only-valid", n, 3)
     oa = repo.method("IdentityCommunity", "on_attest", IC)
@@ -216,39 +628,84 @@ def rule_store(ctx: Ctx) -> None:
     peer = oa.params()[1]
     aa = [c for c in calls(oa) if call_name(c) == "add_attestation"]
     un = [c for c in calls(oa, "Attestation.unserialize")]
-    ok = len(aa) == 1 and norm(arg(aa[0], 0)) == f"{peer}.public_key" and len(un) == 1 and norm(arg(un[0], 1)) == f"{peer}.public_key" \
-        and chain(aa[0].func) == "self.pseudonym_manager.add_attestation"
+    ok = len(aa) == 1 and _x(oa, arg(aa[0], 0)) == f"{peer}.public_key" and len(un) == 1 and _x(oa, arg(un[0], 1)) == f"{peer}.public_key" \
+        and chain(aa[0].func) == "self.pseudonym_manager.add_attestation" and not local_defs(oa, peer)
     ctx.check(ok, "store-only-valid", oa, oa.node, "incoming attestation verified and recorded under the authenticated sender's key",
               "an incoming attestation is attributed to a key other than the authenticated sender's")
 
 
-def rule_permitted(ctx: Ctx) -> None:
+# ------------------------------------------------------------------------------------ token hand-out
+def _permission_bound(e: ast.AST | None, peer: str) -> bool:
+    """e is the position opened to `peer`, 0 when nothing was opened: permissions.get(peer, 0) or its if-expression spelling."""
+    if isinstance(e, ast.Call) and chain(e.func) == "self.permissions.get" and not e.keywords and len(e.args) == 2:
+        return norm(e.args[0]) == peer and const_value(e.args[1]) == 0 and not isinstance(const_value(e.args[1]), bool)
+    if isinstance(e, ast.IfExp):
+        t, a, b = e.test, e.body, e.orelse
+        while isinstance(t, ast.UnaryOp) and isinstance(t.op, ast.Not):
+            t, a, b = t.operand, b, a
+        if isinstance(t, ast.Compare) and len(t.ops) == 1 and isinstance(t.ops[0], ast.NotIn):
+            t, a, b = ast.Compare(left=t.left, ops=[ast.In()], comparators=t.comparators), b, a
+        return isinstance(t, ast.Compare) and len(t.ops) == 1 and isinstance(t.ops[0], ast.In) and norm(t.left) == peer \
+            and norm(t.comparators[0]) == "self.permissions" and norm(a) == f"self.permissions[{peer}]" \
+            and const_value(b) == 0 and not isinstance(const_value(b), bool)
+    return False
+
+
+def _permitted_tokens(fi: FuncInfo, e: ast.AST | None, peer: str) -> bool:
+    """e evaluates to (a slice of) self.token_chain[:<position opened to peer>]."""
+    e = _expand(fi, e)
+    for _ in range(4):
+        if not (isinstance(e, ast.Subscript) and isinstance(e.slice, ast.Slice)):
+            return False
+        if norm(e.value) == "self.token_chain":
+            return e.slice.lower is None and e.slice.step is None and _permission_bound(e.slice.upper, peer)
+        if e.slice.step is not None:
+            return False
+        e = e.value          # a plain sub-slice of a permitted list is permitted
+    return False
+
+
+def rule_permitted(ctx: Ctx) -> None:  # noqa: C901, PLR0912
     repo = ctx.repo
     fi = repo.method("IdentityCommunity", "on_request_missing", IC)
     from .c01 import classify_handler
     ctx.check(classify_handler(ctx, fi) == "authenticated", "permitted-range", fi, fi.node, "on_request_missing is authenticated", "token requests are not authenticated")
     peer = fi.params()[1]
-    snd = [c for c in calls(fi, "self.ez_send") if "MissingResponsePayload" in norm(c)]
+    snd = [c for c in calls(fi, "self.ez_send") if mentions(c, "MissingResponsePayload")]
     ctx.anchor(snd, "MissingResponsePayload send")
     for c in snd:
-        pl = arg(c, 1)
-        out = arg(pl, 0) if isinstance(pl, ast.Call) else None
-        ok = norm(arg(c, 0)) == peer and isinstance(out, ast.Name)
+        pl = resolve(fi, arg(c, 1))
+        out = arg(pl, 0) if isinstance(pl, ast.Call) and call_name(pl) == "MissingResponsePayload" else None
+        ok = _x(fi, arg(c, 0)) == peer and isinstance(out, ast.Name) and not local_defs(fi, peer)
         if ok:
             # every definition of `out` is b"" or out += <serialized token of the permitted enumeration>
             for st, v, _ in local_defs(fi, out.id):
-                if isinstance(st, ast.AugAssign):
-                    src = resolve(fi, st.value)
-                    loop = next((a for a in ancestors(st) if isinstance(a, ast.For)), None)
-                    ok = ok and isinstance(src, ast.Call) and call_name(src) == "get_plaintext_signed" and loop is not None
-                    if loop is not None:
-                        it = loop.iter
-                        base = it.args[0] if isinstance(it, ast.Call) and chain(it.func) == "enumerate" else it
-                        pdef = resolve(fi, base)
-                        tokvar = norm(loop.target.elts[1]) if isinstance(loop.target, ast.Tuple) else norm(loop.target)
-                        ok = ok and norm(pdef) == f"self.token_chain[:self.permissions.get({peer}, 0)]" and chain(src.func.value) == tokvar
+                added = None
+                if isinstance(st, ast.AugAssign) and isinstance(st.op, ast.Add):
+                    added = st.value
+                elif isinstance(v, ast.BinOp) and isinstance(v.op, ast.Add) and isinstance(v.left, ast.Name) and v.left.id == out.id:
+                    added = v.right
+                if added is not None:
+                    src = resolve(fi, added)
+                    good = isinstance(src, ast.Call) and call_name(src) == "get_plaintext_signed" and isinstance(src.func, ast.Attribute) \
+                        and isinstance(src.func.value, ast.Name) and not src.args and not src.keywords
+                    if good:
+                        tokvar = src.func.value.id
+                        tdefs = local_defs(fi, tokvar)
+                        loop = tdefs[0][0] if len(tdefs) == 1 and isinstance(tdefs[0][0], ast.For) else None
+                        good = loop is not None and loop in list(ancestors(st))
+                        if good:
+                            it = resolve(fi, loop.iter)
+                            if isinstance(it, ast.Call) and chain(it.func) == "enumerate" and it.args and not it.keywords:
+                                good = isinstance(loop.target, ast.Tuple) and len(loop.target.elts) == 2 and norm(loop.target.elts[1]) == tokvar
+                                base = it.args[0]
+                            else:
+                                good = isinstance(loop.target, ast.Name)
+                                base = it
+                            good = good and _permitted_tokens(fi, base, peer)
+                    ok = ok and good
                 else:
-                    ok = ok and v is not None and const_value(v) == b""
+                    ok = ok and v is not None and isinstance(st, (ast.Assign, ast.AnnAssign)) and const_value(v) == b""
         ctx.check(ok, "permitted-range", fi, c, "response bytes derive only from token_chain[:permissions.get(peer, 0)] and go to the requester",
                   "tokens beyond the position opened to the requester (or to an unpermitted peer) can be handed out")
     n = 0
@@ -257,7 +714,7 @@ def rule_permitted(ctx: Ctx) -> None:
             continue
         p = parent(a)
         w = isinstance(a.ctx, ast.Store) or (isinstance(p, ast.Subscript) and isinstance(p.ctx, (ast.Store, ast.Del))) or \
-            (isinstance(p, ast.Attribute) and p.attr in ("update", "setdefault", "pop", "clear") and isinstance(parent(p), ast.Call))
+            (isinstance(p, ast.Attribute) and p.attr in ("update", "setdefault", "pop", "clear", "popitem", "__setitem__", "__delitem__") and isinstance(parent(p), ast.Call))
         if not w:
             continue
         n += 1
@@ -265,7 +722,8 @@ def rule_permitted(ctx: Ctx) -> None:
         if f2 is not None and f2.qualname == "IdentityCommunity.__init__":
             continue
         ok = f2 is not None and f2.qualname == "IdentityCommunity.request_attestation_advertisement" and isinstance(st, ast.Assign) \
-            and norm(st.targets[0]) == f"self.permissions[{f2.params()[1]}]" and norm(st.value) == "len(self.token_chain)"
+            and len(st.targets) == 1 and norm(st.targets[0]) == f"self.permissions[{f2.params()[1]}]" and not local_defs(f2, f2.params()[1]) \
+            and _x(f2, st.value) == "len(self.token_chain)"
         ctx.check(ok, "permitted-range", f2 or m.relpath, st, "permissions written only for the peer chosen by the user, with the current chain length",
                   "the disclosure permission of a peer is written outside request_attestation_advertisement")
     ctx.floor("permitted-range", n, 2)
@@ -273,6 +731,7 @@ def rule_permitted(ctx: Ctx) -> None:
 
 def run(ctx: Ctx) -> None:
     rule_should_sign(ctx)
+    rule_attested_memory(ctx)
     rule_attest(ctx)
     rule_store(ctx)
     rule_permitted(ctx)
@@ -311,6 +770,11 @@ WITNESSES = [
      "new": "            if any(attribute_hash in known_attributes for attribute_hash in required_attributes):"},
     {"name": "substantiate ignores bad attestation", "file": IM, "rule": "attest-only-if-consented",
      "old": "            correct &= pseudonym.add_attestation(authority,", "new": "            correct |= pseudonym.add_attestation(authority,"},
+    {"name": "chain verdict overruled after the fact", "file": IM, "rule": "attest-only-if-consented",
+     "old": "        correct = pseudonym.tree.unserialize_public(serialized_tokens)\n",
+     "new": "        correct = pseudonym.tree.unserialize_public(serialized_tokens)\n        correct = correct or len(pseudonym.tree.elements) > 0\n"},
+    {"name": "stored attestation replaced by a later one", "file": ID, "rule": "should-sign",
+     "old": "INSERT OR IGNORE INTO Attestations ", "new": "INSERT OR REPLACE INTO Attestations "},
     {"name": "attestation stored unverified", "file": IM, "rule": "store-only-valid",
      "old": "        if attestation.verify(public_key):\n            self.database.insert_attestation(self.public_key, public_key, attestation)\n            return True\n        return False",
      "new": "        self.database.insert_attestation(self.public_key, public_key, attestation)\n        return attestation.verify(public_key)"},
